@@ -478,6 +478,10 @@ impl<'a> Socket<'a> {
             net_debug!("DHCP ignoring ACK because your_ip is not unicast");
             return None;
         }
+        if Ipv4Cidr::new(dhcp_repr.your_ip, prefix_len).broadcast() == Some(dhcp_repr.your_ip) {
+            net_debug!("DHCP ignoring ACK because your_ip is the broadcast address of its subnet");
+            return None;
+        }
 
         let mut lease_duration = dhcp_repr
             .lease_duration
